@@ -69,8 +69,24 @@ def forbidden_cases(draw):
     return {"plan": plan, "kind": kind, "keymode": "attached", "form": "dict"}
 
 
+def cells():
+    """alg x enc x zip x serialization x curve class, enumerated completely in the thorough tier (data per cell is generated)."""
+    for alg in jp.ALGS:
+        for enc in jp.ENCS:
+            if alg.startswith("ECDH-1PU+") and enc not in jp.CBC:
+                continue
+            for z in (False, True):
+                for ser in jp.SERS:
+                    crvs = [[c] for c in jp.EC_CURVES + jp.X_CURVES] if alg.startswith("ECDH") else [None]
+                    for c in crvs:
+                        yield (alg, enc, z, ser, c)
+
+
 def shards(tier):
-    return [(f"rt{i:02d}", {"part": "rt"}) for i in range(13)] + [(f"fb{i}", {"part": "forbidden"}) for i in range(3)]
+    out = [(f"rt{i:02d}", {"part": "rt"}) for i in range(13)] + [(f"fb{i}", {"part": "forbidden"}) for i in range(3)]
+    if tier == "thorough":
+        out += [(f"cells{i:02d}", {"part": "cells", "i": i, "n": 16}) for i in range(16)]
+    return out
 
 
 def _check_headers(obj, plan, f, tag):
@@ -159,6 +175,15 @@ def run_shard(ctx, spec):
                          "plaintext_len": len(plan["plaintext_hex"]) // 2, "keymode": case["keymode"], "kind": case.get("kind", "roundtrip")})
         for k, w in f.items():
             ctx.finding(k, w, case)
+    if spec["part"] == "cells":
+        for j, (alg, enc, z, ser, crv) in enumerate(cells()):
+            if j % spec["n"] != spec["i"] or ctx.expired():
+                continue
+            strat = st.fixed_dictionaries({"plan": jp.plans(sers=(ser,), algs=[alg], encs=[enc], force_zip=z, curves=crv, max_recipients=2),
+                                           "keymode": st.sampled_from(["attached", "keyset", "callable"]), "form": st.sampled_from(KEYFORMS)})
+            drive(ctx, f"cell-{alg}-{enc}-{z}-{ser}-{crv}", strat, body, 3)
+            ctx.count("cells-enumerated")
+        return
     if spec["part"] == "rt":
         drive(ctx, "rt", case_strategy, body, 420 if ctx.tier == "quick" else 3000)
     else:
